@@ -54,7 +54,11 @@ def validate_options(options):  # noqa: C901
             raise SQLParseError('Invalid value for truncate_strings: '
                                 '{!r}'.format(truncate_strings))
         options['truncate_strings'] = truncate_strings
-        options['truncate_char'] = options.get('truncate_char', '[...]')
+        truncate_char = options.get('truncate_char', '[...]')
+        if not isinstance(truncate_char, str):
+            raise SQLParseError('Invalid value for truncate_char: '
+                                '{!r}'.format(truncate_char))
+        options['truncate_char'] = truncate_char
 
     indent_columns = options.get('indent_columns', False)
     if indent_columns not in [True, False]:
